@@ -17,6 +17,10 @@ C04 emb           -> ok rows=[…] cols=[…] padok=0|1: internal row of every i
                       column (`embRows`, `embCols` — the components of `cutoutEmb`)
 C04 stokesI [a,b,c,d] [xr,xi,yr,yi,zr,zi,wr,wi] -> ok I=… phys=0|1   (`stokesI`, `stokesPhysical`; stateless)
 C04 mdot n 0|1 Dre Dim vre vim -> ok re=[…] im=[…]   (`mdot`: D·v, or Dᴴ·v when the flag is 1; D row-major n², v n; stateless)
+C04 filt 0|1 Dre Dim xre xim -> ok re=[…] im=[…]: the `FourierFilter._operation` pipeline itself (`filtOp`: `filterP` /
+                      `filterPBackward` = pad at `cutStart`, `Fft.dft2`, `shiftD`, multiply, inverse `Fft.dft2`, crop) on Gaussian
+                      rationals, forward (0) or backward (1), for the filter set up (internal sizes must be in {1,2,4});
+                      D centred, row-major My·Mx; x row-major ny·nx
 C04 ir jy         -> ok amp=… turns=[…] (fresnel) | ok r2=[…] (angular): impulse response on row jy of the
                       enlarged grid, for jx = 0..Mx-1 and all s² dithers (x dither fastest)
 ```
@@ -114,6 +118,18 @@ def step (st : St) : List String → St × String
       let v := (vre.zip vim).map fun (a, b) => (⟨a, b⟩ : GRat)
       let r := mdot n (adj == 1) D v
       (st, s!"ok re={showRatList (r.map (·.re))} im={showRatList (r.map (·.im))}")
+    | _, _, _, _, _, _ => (st, "bad-op")
+  | ["filt", back, dre, dim, xre, xim] =>
+    match st.p, parseNat? back, parseRatList? dre, parseRatList? dim, parseRatList? xre, parseRatList? xim with
+    | some p, some back, some dre, some dim, some xre, some xim =>
+      let ok4 := fun (m : Nat) => m = 1 || m = 2 || m = 4
+      if back > 1 || !(ok4 (my p)) || !(ok4 (mx p)) || !(padOK p) || dre.length ≠ my p * mx p || dim.length ≠ my p * mx p
+          || xre.length ≠ p.ny * p.nx || xim.length ≠ p.ny * p.nx then (st, "err value") else
+      let D := (dre.zip dim).map fun (a, b) => (⟨a, b⟩ : GRat)
+      let x := (xre.zip xim).map fun (a, b) => (⟨a, b⟩ : GRat)
+      let r := filtOp p (back == 1) D x
+      (st, s!"ok re={showRatList (r.map (·.re))} im={showRatList (r.map (·.im))}")
+    | none, some _, some _, some _, some _, some _ => (st, "err value")
     | _, _, _, _, _, _ => (st, "bad-op")
   | ["ir", jy] =>
     match st.p, parseNat? jy with
